@@ -85,6 +85,36 @@ theorem SInv_stepPop {s s' : State} {conn : Bool} {cap : Nat} (hi : SInv s) (h :
   leaves h
   all_goals (subst h; refine SInv_of_same (s := s) rfl rfl rfl ?_ hi; hfsame)
 
+theorem SInv_stepWTake {s s' : State}  (hi : SInv s) (h : stepWTake s  = some s') : SInv s' := by
+  unfold stepWTake at h
+  leaves h
+  all_goals (subst h; refine SInv_of_same (s := s) rfl rfl rfl ?_ hi; hfsame)
+
+theorem SInv_stepWDo {s s' : State}  (hi : SInv s) (h : stepWDo s  = some s') : SInv s' := by
+  unfold stepWDo at h
+  leaves h
+  all_goals (subst h; refine SInv_of_same (s := s) rfl rfl rfl ?_ hi; hfsame)
+
+theorem SInv_stepWBlock {s s' : State}  (hi : SInv s) (h : stepWBlock s  = some s') : SInv s' := by
+  unfold stepWBlock at h
+  leaves h
+  all_goals (subst h; refine SInv_of_same (s := s) rfl rfl rfl ?_ hi; hfsame)
+
+theorem SInv_stepFlushStep {s s' : State} {k : Key} (hi : SInv s) (h : stepFlushStep s k = some s') : SInv s' := by
+  unfold stepFlushStep at h
+  leaves h
+  all_goals (subst h; refine SInv_of_same (s := s) rfl rfl rfl ?_ hi; hfsame)
+
+theorem SInv_stepCancelWrite {s s' : State} {k : Key} (hi : SInv s) (h : stepCancelWrite s k = some s') : SInv s' := by
+  unfold stepCancelWrite StreamSt.endWrite at h
+  leaves h
+  all_goals (subst h; refine SInv_of_same (s := s) rfl rfl rfl ?_ hi; hfsame)
+
+theorem SInv_stepCancelFlush {s s' : State} {k : Key} (hi : SInv s) (h : stepCancelFlush s k = some s') : SInv s' := by
+  unfold stepCancelFlush at h
+  leaves h
+  all_goals (subst h; refine SInv_of_same (s := s) rfl rfl rfl ?_ hi; hfsame)
+
 theorem SInv_stepDoFlush {s s' : State}  (hi : SInv s) (h : stepDoFlush s  = some s') : SInv s' := by
   unfold stepDoFlush at h
   leaves h
@@ -107,7 +137,7 @@ theorem SInv_stepAppWrite {s s' : State} {slot : Nat} {bytes : List Nat} (hi : S
   all_goals (subst h; refine SInv_of_same (s := s) rfl rfl rfl ?_ hi; hfsame)
 
 theorem SInv_stepWriteStep {s s' : State} {k : Key} (hi : SInv s) (h : stepWriteStep s k = some s') : SInv s' := by
-  unfold stepWriteStep at h
+  unfold stepWriteStep StreamSt.endWrite at h
   leaves h
   all_goals (subst h; refine SInv_of_same (s := s) rfl rfl rfl ?_ hi; hfsame)
 
@@ -235,7 +265,7 @@ theorem SInv_stepAppDrop {s s' : State} {slot : Nat} {r w : Bool} (hi : SInv s)
   obtain ⟨sl, uniq, valid⟩ := hi
   split at h
   · rename_i k hr hw hs
-    by_cases hg : (r && hr && (s.st k).pendR.isSome || w && hw && (s.st k).pendW.isSome) = true
+    by_cases hg : (r && hr && (s.st k).pendR.isSome || w && hw && ((s.st k).pendW.isSome || (s.st k).pendF.isSome)) = true
     · rw [if_pos hg] at h; cases h
     · rw [if_neg hg] at h
       simp only [Option.some.injEq] at h
@@ -326,6 +356,13 @@ theorem SInv_step {s s' : State} {e : Event} (hi : LInv s) (h : step? s e = some
   case writeStep k => exact SInv_stepWriteStep hS h
   case appFlush a => exact SInv_stepAppFlush hS h
   case appDrop a b c => exact SInv_stepAppDrop hS h
+  case wtake => exact SInv_stepWTake hS h
+  case wdo => exact SInv_stepWDo hS h
+  case wblock => exact SInv_stepWBlock hS h
+  case txWindow l => cases h; exact SInv_of_same (s := s) rfl rfl rfl (fun k => hfSame_refl _) hS
+  case flushStep k => exact SInv_stepFlushStep hS h
+  case cancelWrite k => exact SInv_stepCancelWrite hS h
+  case cancelFlush k => exact SInv_stepCancelFlush hS h
 
 theorem LInv_step {s s' : State} {e : Event} (hi : LInv s) (h : step? s e = some s') : LInv s' := by
   obtain ⟨d1, d2, pr, pw, d5⟩ := LInvA_step hi h
